@@ -268,3 +268,31 @@ Example C02_data_example :
   map DemuxerData_PID (expected ex_stream) = [0; 0; 4096; 256; 256; 257] /\
   length (StreamSpec.stream_bytes ex_stream) = (12 * 188)%nat.
 Proof. split; [exact ex_stream_wf|]. vm_compute. repeat split; reflexivity. Qed.
+
+(* program_map.go is regenerated too (Gen/RestGen.v, go/gen/restgen.go: newProgramMap, existsUnlocked, setUnlocked,
+   unsetUnlocked over an abstract map[uint32]uint16).  The set of PMT PIDs the model threads through isPSIPayload, the
+   packet pool, parseData and updateData (Model/Pool.v: pmap = list Z, pm_mem, pm_add, [] in a fresh Demuxer) is the image
+   of the Go map under the abstraction function pm_alpha (the keys of the association list, in insertion order):
+   newProgramMap is the empty set, setUnlocked(pid, n) is pm_add, existsUnlocked is pm_mem, unsetUnlocked removes exactly
+   its key, and after any history of registrations the two answer alike.  A setUnlocked that stores under another key, an
+   existsUnlocked that looks up another key or an unsetUnlocked that deletes the wrong key breaks this proof. *)
+Require Import Gen.RestGen Proofs.RestGenPm.
+Theorem C02_program_map_is_source :
+  pm_alpha (newProgramMap lm_make) = [] /\
+  (forall m pid n, pm_alpha (programMap_setUnlocked lm_set m pid n) = pm_add (pm_alpha m) pid) /\
+  (forall m pid, programMap_existsUnlocked lm_get m pid = pm_mem (pm_alpha m) pid) /\
+  (forall m pid q, programMap_existsUnlocked lm_get (programMap_unsetUnlocked lm_del m pid) q =
+                   negb (Z.eqb q pid) && programMap_existsUnlocked lm_get m q) /\
+  (forall regs q,
+     programMap_existsUnlocked lm_get
+       (fold_left (fun m e => programMap_setUnlocked lm_set m (fst e) (snd e)) regs (newProgramMap lm_make)) q =
+     pm_mem (fold_left pm_add (map fst regs) []) q).
+Proof. exact program_map_demux_is_generated. Qed.
+Print Assumptions C02_program_map_is_source.
+Example C02_program_map_is_source_inhabited :
+  let m := programMap_setUnlocked lm_set (programMap_setUnlocked lm_set (newProgramMap lm_make) 4096 1) 256 2 in
+  pm_alpha m = [4096; 256] /\ programMap_existsUnlocked lm_get m 256 = true /\
+  programMap_existsUnlocked lm_get m 257 = false /\
+  programMap_existsUnlocked lm_get (programMap_unsetUnlocked lm_del m 4096) 4096 = false /\
+  programMap_existsUnlocked lm_get (programMap_unsetUnlocked lm_del m 4096) 256 = true.
+Proof. exact program_map_demux_example. Qed.
